@@ -4,12 +4,13 @@ def install_all(reg):
     strmodel.install(reg)
     sdmodel.install(reg)
     pnmodel.install(reg)
-    from . import space_utils, deps, succession_diagram
+    from . import space_utils, deps, succession_diagram, algorithms, petri_net, trappist
     space_utils.install(reg)
     deps.install(reg)
-    succession_diagram.install(reg)
-    from . import algorithms, petri_net, trappist
+    petri_net.install(reg)
     trappist.install(reg)
     trappist.install_models(reg)
+    succession_diagram.install(reg)
+    succession_diagram._install_skip(reg)
+    succession_diagram._install_skip2(reg)
     algorithms.install(reg)
-    petri_net.install(reg)
